@@ -7,9 +7,13 @@
                                   suite heap.members.copied models these two as copying (the proposed fix)
       "M" id field index value   a write through snapshot `id` (see decode_mut)
       "A" id flags n args...     snap.Modes.Apply(snap.Modes.Parse(flags, args))
+      "L" id action index        listing id (the id-th result slice of Users() / Channels() taken by S users / S chans):
+                                 action = nil (listing[index] = nil) | swap (slots index, index+1) | show
       "R"                        re-query: dump of Users() and Channels()
       "I" id                     inspect snapshot id
-   At the end every snapshot is inspected and the state re-queried once more.
+   At the end every snapshot is inspected, every listing shown, and the state re-queried once more.
+   "heap.churn": concurrent scenario evaluated on the implementation only (oracle snapshot-torn);
+   the model's observation is the constant "consistent".
    Observation: the outputs of R / I in order, separated by ';'. *)
 Require Import Bytes AMap Names State Heap.
 
@@ -125,29 +129,49 @@ Definition decode_mut (snaps : list (option nat)) (o : nat) (field : str) (index
       else None
   end.
 
-Record dstate := mkD { d_w : world; d_snaps : list (option nat); d_out : list str }.
+(* a listing: its slots in order, nil slots included *)
+Definition dump_slot (h : heap) (x : option nat) : str :=
+  match x with
+  | None => bs "nil"
+  | Some o => match hget h o with
+              | Some (CUser _) => dump_copy_user h o
+              | Some (CChan _) => dump_copy_chan h o
+              | _ => bs "?"
+              end
+  end.
+Definition dump_listing (h : heap) (lid : nat) : str :=
+  match hget h lid with
+  | Some (CPtrs l) => join bar (List.map (dump_slot h) l)
+  | _ => bs "?dangling"
+  end.
+
+Record dstate := mkDL { d_w : world; d_snaps : list (option nat); d_out : list str;
+                        d_lists : list nat }.   (* the result slices of Users() / Channels() held by the client *)
+Definition mkD' (ls : list nat) (w : world) (s : list (option nat)) (o : list str) : dstate := mkDL w s o ls.
 
 Definition snap_op (copied : bool) (d : dstate) (kind name : str) : res dstate :=
   let w := d_w d in
   if streqb kind (bs "user") then
     r <- lookup_user_g w name ;;
-    Ok (mkD (mkWorld (fst r) (w_st w)) (d_snaps d ++ [snd r]) (d_out d))
+    Ok (mkD' (d_lists d) (mkWorld (fst r) (w_st w)) (d_snaps d ++ [snd r]) (d_out d))
   else if streqb kind (bs "chan") then
     r <- lookup_channel_g w name ;;
-    Ok (mkD (mkWorld (fst r) (w_st w)) (d_snaps d ++ [snd r]) (d_out d))
+    Ok (mkD' (d_lists d) (mkWorld (fst r) (w_st w)) (d_snaps d ++ [snd r]) (d_out d))
   else if streqb kind (bs "users") then
-    r <- users_g w ;;
-    Ok (mkD (mkWorld (fst r) (w_st w)) (d_snaps d ++ List.map Some (snd r)) (d_out d))
+    r <- users_listing_g w ;;
+    let '(h', lid, l) := r in
+    Ok (mkDL (mkWorld h' (w_st w)) (d_snaps d ++ List.map Some l) (d_out d) (d_lists d ++ [lid]))
   else if streqb kind (bs "chans") then
-    r <- channels_g w ;;
-    Ok (mkD (mkWorld (fst r) (w_st w)) (d_snaps d ++ List.map Some (snd r)) (d_out d))
+    r <- channels_listing_g w ;;
+    let '(h', lid, l) := r in
+    Ok (mkDL (mkWorld h' (w_st w)) (d_snaps d ++ List.map Some l) (d_out d) (d_lists d ++ [lid]))
   else if streqb kind (bs "uchans") then
     match nth_error (d_snaps d) (nat_arg name) with
     | Some (Some o) =>
         match hget (w_heap w) o with
         | Some (CUser _) =>
-            if copied then r <- user_channels_copied_g w o ;; Ok (mkD (mkWorld (fst r) (w_st w)) (d_snaps d ++ List.map Some (snd r)) (d_out d))
-            else l <- user_channels_g w o ;; Ok (mkD w (d_snaps d ++ List.map Some l) (d_out d))
+            if copied then r <- user_channels_copied_g w o ;; Ok (mkD' (d_lists d) (mkWorld (fst r) (w_st w)) (d_snaps d ++ List.map Some (snd r)) (d_out d))
+            else l <- user_channels_g w o ;; Ok (mkD' (d_lists d) w (d_snaps d ++ List.map Some l) (d_out d))
         | _ => Ok d
         end
     | _ => Ok d
@@ -157,8 +181,8 @@ Definition snap_op (copied : bool) (d : dstate) (kind name : str) : res dstate :
     | Some (Some o) =>
         match hget (w_heap w) o with
         | Some (CChan _) =>
-            if copied then r <- channel_users_copied_g w o ;; Ok (mkD (mkWorld (fst r) (w_st w)) (d_snaps d ++ List.map Some (snd r)) (d_out d))
-            else l <- channel_users_g w o ;; Ok (mkD w (d_snaps d ++ List.map Some l) (d_out d))
+            if copied then r <- channel_users_copied_g w o ;; Ok (mkD' (d_lists d) (mkWorld (fst r) (w_st w)) (d_snaps d ++ List.map Some (snd r)) (d_out d))
+            else l <- channel_users_g w o ;; Ok (mkD' (d_lists d) w (d_snaps d ++ List.map Some l) (d_out d))
         | _ => Ok d
         end
     | _ => Ok d
@@ -169,8 +193,8 @@ Definition snap_op (copied : bool) (d : dstate) (kind name : str) : res dstate :
     | Some (Some o) =>
         match hget (w_heap w) o with
         | Some (CChan _) =>
-            if copied then r <- channel_filtered_copied_g test w o ;; Ok (mkD (mkWorld (fst r) (w_st w)) (d_snaps d ++ List.map Some (snd r)) (d_out d))
-            else l <- channel_filtered_g test w o ;; Ok (mkD w (d_snaps d ++ List.map Some l) (d_out d))
+            if copied then r <- channel_filtered_copied_g test w o ;; Ok (mkD' (d_lists d) (mkWorld (fst r) (w_st w)) (d_snaps d ++ List.map Some (snd r)) (d_out d))
+            else l <- channel_filtered_g test w o ;; Ok (mkD' (d_lists d) w (d_snaps d ++ List.map Some l) (d_out d))
         | _ => Ok d
         end
     | _ => Ok d
@@ -188,7 +212,7 @@ Fixpoint run_ops (copied : bool) (fuel : nat) (cfg : config) (d : dstate) (args 
             match decode_event13 rest with
             | Some (e, rest') =>
                 w' <- handle_h go_grow cfg (d_w d) e ;;
-                run_ops copied f cfg (mkD w' (d_snaps d) (d_out d)) rest'
+                run_ops copied f cfg (mkD' (d_lists d) w' (d_snaps d) (d_out d)) rest'
             | None => Ok d
             end
           else if streqb tag [83] then                             (* S *)
@@ -202,7 +226,7 @@ Fixpoint run_ops (copied : bool) (fuel : nat) (cfg : config) (d : dstate) (args 
                 let d' := match nth_error (d_snaps d) (nat_arg id) with
                           | Some (Some o) =>
                               match decode_mut (d_snaps d) o field (nat_arg index) value with
-                              | Some op => mkD (mkWorld (client_op go_grow (w_heap (d_w d)) op) (w_st (d_w d))) (d_snaps d) (d_out d)
+                              | Some op => mkD' (d_lists d) (mkWorld (client_op go_grow (w_heap (d_w d)) op) (w_st (d_w d))) (d_snaps d) (d_out d)
                               | None => d
                               end
                           | _ => d
@@ -217,21 +241,41 @@ Fixpoint run_ops (copied : bool) (fuel : nat) (cfg : config) (d : dstate) (args 
                 if Nat.ltb (length rest') k then Ok d else
                 let d' := match nth_error (d_snaps d) (nat_arg id) with
                           | Some (Some o) =>
-                              mkD (mkWorld (client_op go_grow (w_heap (d_w d)) (OpApplyModes o flags (firstn k rest'))) (w_st (d_w d)))
+                              mkD' (d_lists d) (mkWorld (client_op go_grow (w_heap (d_w d)) (OpApplyModes o flags (firstn k rest'))) (w_st (d_w d)))
                                   (d_snaps d) (d_out d)
                           | _ => d
                           end in
                 run_ops copied f cfg d' (skipn k rest')
             | _ => Ok d
             end
+          else if streqb tag [76] then                             (* L id action index *)
+            match rest with
+            | id :: action :: index :: rest' =>
+                let i := nat_arg index in
+                match nth_error (d_lists d) (nat_arg id) with
+                | Some lid =>
+                    let h := w_heap (d_w d) in
+                    if streqb action (bs "show") then
+                      run_ops copied f cfg (mkD' (d_lists d) (d_w d) (d_snaps d) (d_out d ++ [[76] ++ show_nat (nat_arg id) ++ eqs ++ dump_listing h lid])) rest'
+                    else
+                      let op := if streqb action (bs "nil") then Some (OpSlotNil lid i)
+                                else if streqb action (bs "swap") then Some (OpSlotSwap lid i (S i)) else None in
+                      match op with
+                      | Some op => run_ops copied f cfg (mkD' (d_lists d) (mkWorld (client_op go_grow h op) (w_st (d_w d))) (d_snaps d) (d_out d)) rest'
+                      | None => run_ops copied f cfg d rest'
+                      end
+                | None => run_ops copied f cfg d rest'
+                end
+            | _ => Ok d
+            end
           else if streqb tag [82] then                             (* R *)
             r <- requery (d_w d) ;;
-            run_ops copied f cfg (mkD (fst r) (d_snaps d) (d_out d ++ [82 :: snd r])) rest
+            run_ops copied f cfg (mkD' (d_lists d) (fst r) (d_snaps d) (d_out d ++ [82 :: snd r])) rest
           else if streqb tag [73] then                             (* I *)
             match rest with
             | id :: rest' =>
                 let o := match nth_error (d_snaps d) (nat_arg id) with Some s => inspect (d_w d) s | None => bs "none" end in
-                run_ops copied f cfg (mkD (d_w d) (d_snaps d) (d_out d ++ [[73] ++ show_nat (nat_arg id) ++ colon ++ o])) rest'
+                run_ops copied f cfg (mkD' (d_lists d) (d_w d) (d_snaps d) (d_out d ++ [[73] ++ show_nat (nat_arg id) ++ colon ++ o])) rest'
             | _ => Ok d
             end
           else Ok d
@@ -244,16 +288,22 @@ Fixpoint inspect_all (w : world) (i : nat) (l : list (option nat)) : list str :=
   | s :: r => ([73] ++ show_nat i ++ colon ++ inspect w s) :: inspect_all w (S i) r
   end.
 
+Fixpoint listings_all (h : heap) (i : nat) (l : list nat) : list str :=
+  match l with
+  | [] => []
+  | lid :: r => ([76] ++ show_nat i ++ eqs ++ dump_listing h lid) :: listings_all h (S i) r
+  end.
+
 Definition run_heap (copied : bool) (args : list str) : str :=
   match args with
   | nick :: usr :: rest =>
       let cfg := mkConfig nick usr in
-      match run_ops copied (S (length rest)) cfg (mkD world_init [] []) rest with
+      match run_ops copied (S (length rest)) cfg (mkDL world_init [] [] []) rest with
       | Panic => bs "PANIC"
       | Ok d =>
           match requery (d_w d) with
           | Panic => bs "PANIC"
-          | Ok (w', q) => join semi (d_out d ++ inspect_all w' 0 (d_snaps d) ++ [82 :: q])
+          | Ok (w', q) => join semi (d_out d ++ inspect_all w' 0 (d_snaps d) ++ listings_all (w_heap w') 0 (d_lists d) ++ [82 :: q])
           end
       end
   | _ => bs "?bad-args"
@@ -263,4 +313,5 @@ Definition run_C13 (suite : str) (args : list str) : option str :=
   if streqb suite (bs "heap.ops") || streqb suite (bs "heap.hostile") || streqb suite (bs "heap.members")
   then Some (run_heap false args)
   else if streqb suite (bs "heap.members.copied") then Some (run_heap true args)
+  else if streqb suite (bs "heap.churn") then Some (bs "consistent")
   else None.
